@@ -117,6 +117,146 @@ impl<'a> Parser<'a> {
         }
         Ok(args)
     }
+    /// A function call `name(arguments)`. Kept out of `parse_number` on purpose: that function is re-entered once per prefix
+    /// sign, bracket and implicit product, and the temporaries of these forty arms would be part of every one of its stack
+    /// frames (255 prefix signs overflowed a 2 MiB stack in an unoptimised build).
+    fn parse_function(&mut self, current_function: NativeFunction) -> Result<Node, ParseError> {
+        let current_function = match current_function {
+            NativeFunction::Abs => {
+                Node::Abs(Box::new(self.function_static_arguments(1)?[0].clone()))
+            }
+            NativeFunction::Floor => {
+                Node::Floor(Box::new(self.function_static_arguments(1)?[0].clone()))
+            }
+            NativeFunction::Ceil => {
+                Node::Ceil(Box::new(self.function_static_arguments(1)?[0].clone()))
+            }
+            NativeFunction::Round => {
+                Node::Round(Box::new(self.function_static_arguments(1)?[0].clone()))
+            }
+            NativeFunction::Sin => {
+                Node::Sin(Box::new(self.function_static_arguments(1)?[0].clone()))
+            }
+            NativeFunction::Cos => {
+                Node::Cos(Box::new(self.function_static_arguments(1)?[0].clone()))
+            }
+            NativeFunction::Tan => {
+                Node::Tan(Box::new(self.function_static_arguments(1)?[0].clone()))
+            }
+            NativeFunction::Sinh => {
+                Node::Sinh(Box::new(self.function_static_arguments(1)?[0].clone()))
+            }
+            NativeFunction::Cosh => {
+                Node::Cosh(Box::new(self.function_static_arguments(1)?[0].clone()))
+            }
+            NativeFunction::Tanh => {
+                Node::Tanh(Box::new(self.function_static_arguments(1)?[0].clone()))
+            }
+            NativeFunction::Asin => {
+                Node::Asin(Box::new(self.function_static_arguments(1)?[0].clone()))
+            }
+            NativeFunction::Acos => {
+                Node::Acos(Box::new(self.function_static_arguments(1)?[0].clone()))
+            }
+            NativeFunction::Atan => {
+                Node::Atan(Box::new(self.function_static_arguments(1)?[0].clone()))
+            }
+            NativeFunction::Arsinh => {
+                Node::Arsinh(Box::new(self.function_static_arguments(1)?[0].clone()))
+            }
+            NativeFunction::Arcosh => {
+                Node::Arcosh(Box::new(self.function_static_arguments(1)?[0].clone()))
+            }
+            NativeFunction::Artanh => {
+                Node::Artanh(Box::new(self.function_static_arguments(1)?[0].clone()))
+            }
+            NativeFunction::Sqrt => {
+                Node::Sqrt(Box::new(self.function_static_arguments(1)?[0].clone()))
+            }
+            NativeFunction::Exp => {
+                Node::Exp(Box::new(self.function_static_arguments(1)?[0].clone()))
+            }
+            NativeFunction::Exp2 => {
+                Node::Exp2(Box::new(self.function_static_arguments(1)?[0].clone()))
+            }
+            NativeFunction::Ln => {
+                Node::Ln(Box::new(self.function_static_arguments(1)?[0].clone()))
+            }
+            NativeFunction::Lb => {
+                Node::Lb(Box::new(self.function_static_arguments(1)?[0].clone()))
+            }
+            NativeFunction::LambertW => {
+                Node::LambertW(Box::new(self.function_static_arguments(1)?[0].clone()))
+            }
+            NativeFunction::Sign => {
+                Node::Sign(Box::new(self.function_static_arguments(1)?[0].clone()))
+            }
+            NativeFunction::Truncate => {
+                Node::Truncate(Box::new(self.function_static_arguments(1)?[0].clone()))
+            }
+            NativeFunction::Atan2 => {
+                let args = self.function_static_arguments(2)?;
+                Node::Atan2(Box::new(args[0].clone()), Box::new(args[1].clone()))
+            }
+            NativeFunction::Mod => {
+                let args = self.function_static_arguments(2)?;
+                Node::Modulo(Box::new(args[0].clone()), Box::new(args[1].clone()))
+            }
+            NativeFunction::Pow => {
+                let args = self.function_static_arguments(2)?;
+                Node::Pow(Box::new(args[0].clone()), Box::new(args[1].clone()))
+            }
+            NativeFunction::Root => {
+                let args = self.function_static_arguments(2)?;
+                Node::Root(Box::new(args[0].clone()), Box::new(args[1].clone()))
+            }
+            NativeFunction::Log => {
+                let args = self.function_static_arguments(2)?;
+                Node::Log(Box::new(args[0].clone()), Box::new(args[1].clone()))
+            }
+            NativeFunction::ILog => {
+                let args = self.function_static_arguments(2)?;
+                Node::ILog(Box::new(args[0].clone()), Box::new(args[1].clone()))
+            }
+            NativeFunction::Min => {
+                let args = self.function_arguments()?;
+                if args.is_empty() {
+                    return Err(ParseError::UnableToParse(
+                        "There's no arguments in the min function".to_string(),
+                    ));
+                }
+                Node::Min(Arc::new(args))
+            }
+            NativeFunction::Max => {
+                let args = self.function_arguments()?;
+                if args.is_empty() {
+                    return Err(ParseError::UnableToParse(
+                        "There's no arguments in the max function".to_string(),
+                    ));
+                }
+                Node::Max(Arc::new(args))
+            }
+            NativeFunction::Avg => {
+                let args = self.function_arguments()?;
+                if args.is_empty() {
+                    Node::Number(0.0)
+                } else {
+                    Node::Avg(Arc::new(args))
+                }
+            }
+            NativeFunction::Med => {
+                let args = self.function_arguments()?;
+                if args.is_empty() {
+                    return Err(ParseError::UnableToParse(
+                        "Cannot compute the median of no arguments".to_string(),
+                    ));
+                } else {
+                    Node::Med(Arc::new(args))
+                }
+            }
+        };
+        self.implicit_multiply(current_function)
+    }
     fn parse_number(&mut self) -> Result<Node, ParseError> {
         let token = self.current_token.clone();
         match token {
@@ -124,143 +264,7 @@ impl<'a> Parser<'a> {
                 self.get_next_token()?;
                 Ok(Node::Number(self.placeholder))
             }
-            Token::ExplicitFunction(current_function) => {
-                let current_function = match current_function {
-                    NativeFunction::Abs => {
-                        Node::Abs(Box::new(self.function_static_arguments(1)?[0].clone()))
-                    }
-                    NativeFunction::Floor => {
-                        Node::Floor(Box::new(self.function_static_arguments(1)?[0].clone()))
-                    }
-                    NativeFunction::Ceil => {
-                        Node::Ceil(Box::new(self.function_static_arguments(1)?[0].clone()))
-                    }
-                    NativeFunction::Round => {
-                        Node::Round(Box::new(self.function_static_arguments(1)?[0].clone()))
-                    }
-                    NativeFunction::Sin => {
-                        Node::Sin(Box::new(self.function_static_arguments(1)?[0].clone()))
-                    }
-                    NativeFunction::Cos => {
-                        Node::Cos(Box::new(self.function_static_arguments(1)?[0].clone()))
-                    }
-                    NativeFunction::Tan => {
-                        Node::Tan(Box::new(self.function_static_arguments(1)?[0].clone()))
-                    }
-                    NativeFunction::Sinh => {
-                        Node::Sinh(Box::new(self.function_static_arguments(1)?[0].clone()))
-                    }
-                    NativeFunction::Cosh => {
-                        Node::Cosh(Box::new(self.function_static_arguments(1)?[0].clone()))
-                    }
-                    NativeFunction::Tanh => {
-                        Node::Tanh(Box::new(self.function_static_arguments(1)?[0].clone()))
-                    }
-                    NativeFunction::Asin => {
-                        Node::Asin(Box::new(self.function_static_arguments(1)?[0].clone()))
-                    }
-                    NativeFunction::Acos => {
-                        Node::Acos(Box::new(self.function_static_arguments(1)?[0].clone()))
-                    }
-                    NativeFunction::Atan => {
-                        Node::Atan(Box::new(self.function_static_arguments(1)?[0].clone()))
-                    }
-                    NativeFunction::Arsinh => {
-                        Node::Arsinh(Box::new(self.function_static_arguments(1)?[0].clone()))
-                    }
-                    NativeFunction::Arcosh => {
-                        Node::Arcosh(Box::new(self.function_static_arguments(1)?[0].clone()))
-                    }
-                    NativeFunction::Artanh => {
-                        Node::Artanh(Box::new(self.function_static_arguments(1)?[0].clone()))
-                    }
-                    NativeFunction::Sqrt => {
-                        Node::Sqrt(Box::new(self.function_static_arguments(1)?[0].clone()))
-                    }
-                    NativeFunction::Exp => {
-                        Node::Exp(Box::new(self.function_static_arguments(1)?[0].clone()))
-                    }
-                    NativeFunction::Exp2 => {
-                        Node::Exp2(Box::new(self.function_static_arguments(1)?[0].clone()))
-                    }
-                    NativeFunction::Ln => {
-                        Node::Ln(Box::new(self.function_static_arguments(1)?[0].clone()))
-                    }
-                    NativeFunction::Lb => {
-                        Node::Lb(Box::new(self.function_static_arguments(1)?[0].clone()))
-                    }
-                    NativeFunction::LambertW => {
-                        Node::LambertW(Box::new(self.function_static_arguments(1)?[0].clone()))
-                    }
-                    NativeFunction::Sign => {
-                        Node::Sign(Box::new(self.function_static_arguments(1)?[0].clone()))
-                    }
-                    NativeFunction::Truncate => {
-                        Node::Truncate(Box::new(self.function_static_arguments(1)?[0].clone()))
-                    }
-                    NativeFunction::Atan2 => {
-                        let args = self.function_static_arguments(2)?;
-                        Node::Atan2(Box::new(args[0].clone()), Box::new(args[1].clone()))
-                    }
-                    NativeFunction::Mod => {
-                        let args = self.function_static_arguments(2)?;
-                        Node::Modulo(Box::new(args[0].clone()), Box::new(args[1].clone()))
-                    }
-                    NativeFunction::Pow => {
-                        let args = self.function_static_arguments(2)?;
-                        Node::Pow(Box::new(args[0].clone()), Box::new(args[1].clone()))
-                    }
-                    NativeFunction::Root => {
-                        let args = self.function_static_arguments(2)?;
-                        Node::Root(Box::new(args[0].clone()), Box::new(args[1].clone()))
-                    }
-                    NativeFunction::Log => {
-                        let args = self.function_static_arguments(2)?;
-                        Node::Log(Box::new(args[0].clone()), Box::new(args[1].clone()))
-                    }
-                    NativeFunction::ILog => {
-                        let args = self.function_static_arguments(2)?;
-                        Node::ILog(Box::new(args[0].clone()), Box::new(args[1].clone()))
-                    }
-                    NativeFunction::Min => {
-                        let args = self.function_arguments()?;
-                        if args.is_empty() {
-                            return Err(ParseError::UnableToParse(
-                                "There's no arguments in the min function".to_string(),
-                            ));
-                        }
-                        Node::Min(Arc::new(args))
-                    }
-                    NativeFunction::Max => {
-                        let args = self.function_arguments()?;
-                        if args.is_empty() {
-                            return Err(ParseError::UnableToParse(
-                                "There's no arguments in the max function".to_string(),
-                            ));
-                        }
-                        Node::Max(Arc::new(args))
-                    }
-                    NativeFunction::Avg => {
-                        let args = self.function_arguments()?;
-                        if args.is_empty() {
-                            Node::Number(0.0)
-                        } else {
-                            Node::Avg(Arc::new(args))
-                        }
-                    }
-                    NativeFunction::Med => {
-                        let args = self.function_arguments()?;
-                        if args.is_empty() {
-                            return Err(ParseError::UnableToParse(
-                                "Cannot compute the median of no arguments".to_string(),
-                            ));
-                        } else {
-                            Node::Med(Arc::new(args))
-                        }
-                    }
-                };
-                self.implicit_multiply(current_function)
-            }
+            Token::ExplicitFunction(current_function) => self.parse_function(current_function),
             Token::Subtract => {
                 self.get_next_token()?;
                 let expr = self.generate_ast(OperatorCategory::Negative)?;
